@@ -416,6 +416,36 @@ K('face3d_normal_from_3pts', FACE + '_normal_from_3pts',
   [p('pt1', P3), p('pt2', P3), p('pt3', P3)], 'V3', 'Face', ['C06', 'C01'])
 
 
+
+# ------------------------------------------------------------------ serialisation (C13)
+_SER = [
+    ('v2', 'geometry2d.pointvector:Vector2D', W2, 'V2', True),
+    ('p2', 'geometry2d.pointvector:Point2D', P2, 'V2', True),
+    ('v3', 'geometry3d.pointvector:Vector3D', W3, 'V3', True),
+    ('p3', 'geometry3d.pointvector:Point3D', P3, 'V3', True),
+    ('seg2', 'geometry2d.line:LineSegment2D', SEG2, 'LR2', True),
+    ('ray2', 'geometry2d.ray:Ray2D', RAY2, 'LR2', True),
+    ('seg3', 'geometry3d.line:LineSegment3D', SEG3, 'LR3', True),
+    ('ray3', 'geometry3d.ray:Ray3D', RAY3, 'LR3', True),
+    ('plane', 'geometry3d.plane:Plane', PL, 'PlaneS', False),
+    ('arc2', 'geometry2d.arc:Arc2D', A2, 'Arc2S', False),
+    ('arc3', 'geometry3d.arc:Arc3D', A3, 'Arc3S', False),
+    ('sphere', 'geometry3d.sphere:Sphere', SPH, 'SphereS', False),
+    ('cone', 'geometry3d.cone:Cone', CON, 'ConeS', False),
+    ('cyl', 'geometry3d.cylinder:Cylinder', CYL, 'CylS', False),
+]
+for (pre, tgt, T, mt, has_array) in _SER:
+    K(pre + '_dict_roundtrip', tgt + '.to_dict', [p('x', T)], mt, 'Serial', ['C13'],
+      roundtrip='dict')
+    if has_array:
+        K(pre + '_array_roundtrip', tgt + '.to_array', [p('x', T)], mt, 'Serial', ['C13'],
+          roundtrip='array')
+    K(pre + '_copy', tgt + '.duplicate', [p('x', T)], mt, 'Serial', ['C13'],
+      roundtrip='copy')
+    K(pre + '_eq', tgt + '.__eq__', [p('x', T), p('y', T)], 'B', 'Serial', ['C13'],
+      roundtrip='eq')
+
+
 def all_kernels():
     import copy
     return copy.deepcopy(KERNELS)
